@@ -446,7 +446,7 @@ func e4RunBody(c e4Case, started chan<- *e4Env) (res *e4Result) {
 	d := &vdialer{b: b, maxRead: c.Cfg.MaxRead}
 	d.maxPayload = c.Cfg.MaxPayload
 	if c.Cfg.Transport != 0 {
-		d.flavour = func(conn int) int { return (c.Cfg.Transport + conn - 1) & 15 }
+		d.flavour = func(conn int) int { return (c.Cfg.Transport + conn - 1) & 31 }
 	}
 	res = &e4Result{Case: c}
 	e := &e4Env{c: c, log: log, b: b, d: d, res: res}
